@@ -144,12 +144,27 @@ def run_mixed_shard(pid, params, rec, extra_kinds=None):
     n, nmax = params["n"], params["nmax"]
     budget = params.get("budget_s", 1e9)
     t0 = time.time()
+    prev = None
     for i in range(n):
         if time.time() - t0 > budget:
             rec.note(f"time budget reached after {i} configurations")
             break
         rng = gen.rng_for(seed, "plan", shard, i)
         cfg = gen.plan_config(rng, nmax)
+        if i % 5 == 4 and prev is not None:
+            # call history: the previous configuration with ONE parameter changed (same N), so
+            # that anything remembered from the earlier call under an incomplete key is exposed
+            cfg = dict(prev)
+            which = str(rng.choice(["olap", "Kdes", "Jdes", "Lmin", "bmin", "fs"]))
+            alt = gen.plan_config(rng, nmax)
+            if which == "Lmin":
+                cfg["Lmin"] = int(min(max(1, alt["Lmin"]), cfg["N"]))
+            elif which == "bmin":
+                cfg["bmin"] = float(alt["bmin"]) if alt["bmin"] < cfg["N"] / 2 else 1.0
+            else:
+                cfg[which] = alt[which]
+            cfg["klass"] = f"vary-{which}"
+        prev = dict(cfg)
         cfg["case_seed"] = [seed, shard, i]
         for sched in gen.SCHEDS:
             run_direct(pid, rec, cfg, sched)
